@@ -1,9 +1,245 @@
-import Model.Common
-/-! Oracle handlers for C15 (stub until the property's model exists). -/
+import Model.C15
+/-! Oracle handlers for C15: model output (correspondence) and judge (property on impl output). -/
 namespace OracleC15
-open Common
+open Common Ring C14 C15
 
-def handle (_cmd : String) (_f : List String) : String × String × String :=
-  ("unknown-cmd", "-", "-")
+def joinReasons (l : List String) : String := if l.isEmpty then "-" else ",".intercalate l.eraseDups
+
+def bucket (n : Nat) : String :=
+  if n ≤ 3 then toString n else if n ≤ 8 then "4-8" else if n ≤ 64 then "9-64" else "65+"
+
+/-! ### routing -/
+
+/-- judge-side specification of the route, by exhaustive search (independent of `searchToken`):
+the ACTIVE partition owning the smallest ACTIVE token `> key`, else the smallest ACTIVE token. -/
+def specRoute (d : PDesc) (k : Nat) : Option Int :=
+  let act : List (Nat × Int) := (d.parts.filter (·.state == 2)).flatMap fun p => p.tokens.map fun t => (t, p.id)
+  let pickMin (l : List (Nat × Int)) : Option (Nat × Int) :=
+    l.foldl (fun b x => match b with | none => some x | some y => if x.1 < y.1 then some x else some y) none
+  match pickMin (act.filter (·.1 > k)) with
+  | some x => some x.2
+  | none => (pickMin act).map (·.2)
+
+def showGroups (g : List (Int × List Nat)) : String :=
+  if g.isEmpty then "-" else ";".intercalate (g.map fun (p, l) => toString p ++ ":" ++ "+".intercalate (l.map toString))
+
+def parseGroups (s : String) : Option (List (Int × List Nat)) :=
+  if s == "-" then some [] else
+  (s.splitOn ";").mapM fun g => match g.splitOn ":" with
+    | [p, l] => do pure ((← p.toInt?), (← (l.splitOn "+").mapM String.toNat?))
+    | _ => none
+
+def handleRoute (f : List String) : String × String × String :=
+  match f with
+  | [ds, ks, _, owners, groups] =>
+    match parsePDesc ds, natList? ks with
+    | some d, some keys =>
+      let all := d.tokenParts
+      let mOwners := if keys.isEmpty then "-" else
+        ",".intercalate (keys.map fun k => match activeForOf all k with | .ok p => toString p | .error _ => "!")
+      let mGroups := match keysByPartition d keys with
+        | .ok g => "ok:" ++ showGroups g
+        | .error e => "err:" ++ e.name
+      let diff := if [mOwners, mGroups] == [owners, groups] then "-" else "model=" ++ mOwners ++ " " ++ mGroups
+      let os := if keys.isEmpty then [] else owners.splitOn ","
+      let anyActiveTok := d.parts.any fun p => p.state == 2 && !p.tokens.isEmpty
+      let j1 := if os.length != keys.length then ["obs-length-mismatch"] else
+        (keys.zip os).flatMap fun (k, o) =>
+          match specRoute d k with
+          | some p => if o == toString p then [] else if o == "!" then ["error-although-active-partition"] else ["route-not-next-active"]
+          | none => if o == "!" then [] else ["route-without-active-partition"]
+      let j2 := if groups.startsWith "ok:" then
+          match parseGroups (groups.drop 3).toString with
+          | none => ["groups-unparsable"]
+          | some g =>
+            let idxs := g.flatMap (·.2)
+            (if (List.range keys.length).all (fun i => idxs.count i == 1) && idxs.length == keys.length then [] else ["keys-not-each-once"]) ++
+            (if g.all (fun (p, l) => l.all fun i => os[i]? == some (toString p)) then [] else ["key-grouped-under-other-partition"])
+        else if anyActiveTok then ["error-although-active-partition"] else []
+      let nAct := (d.parts.filter (·.state == 2)).length
+      let tags := s!"route parts={bucket d.parts.length} active={bucket nAct} tokens={bucket all.length} keys={bucket keys.length} groups={(groups.take 3).toString} t0={(all.head?.map (·.1 == 0)).getD false}"
+      (diff, joinReasons (j1 ++ j2), tags)
+    | _, _ => ("bad-input", "-", "-")
+  | _ => ("bad-fields", "-", "-")
+
+/-! ### histories -/
+
+def parseCfg (s : String) : Option Cfg :=
+  match s.splitOn "," with
+  | [pid, inst, m, wc, wd, da] => do
+    pure { pid := ← pid.toInt?, inst := inst, multi := m == "1", waitCount := ← wc.toNat?, waitDur := ← wd.toInt?, deleteAfter := ← da.toInt? }
+  | _ => none
+
+def parseOp (cfgs : List Cfg) (s : String) : Option Op :=
+  match s.splitOn "," with
+  | ["E", pid, to, now] => do pure (.change (← pid.toInt?) (← to.toNat?) (← now.toInt?))
+  | ["L", pid, b, now] => do pure (.lock (← pid.toInt?) (b == "1") (← now.toInt?))
+  | ["M", inst, pid] => do pure (.removeMultiOwner inst (← pid.toInt?))
+  | ["C", ci, n, now] => do pure (.create (← cfgs[← ci.toNat?]?) (List.replicate (← n.toNat?) 0) (← now.toInt?))
+  | ["W", ci, now] => do pure (.wait (← cfgs[← ci.toNat?]?) (← now.toInt?))
+  | ["O", ci, now] => do pure (.reconcileOwned (← cfgs[← ci.toNat?]?) (← now.toInt?))
+  | ["R", ci, now] => do pure (.reconcileOthers (← cfgs[← ci.toNat?]?) (← now.toInt?))
+  | ["S", ci, b] => do pure (.stopping (← cfgs[← ci.toNat?]?) (b == "1"))
+  | _ => none
+
+def isReconcile : Op → Bool
+  | .reconcileOwned .. => true | .reconcileOthers .. => true | _ => false
+
+def resName (op : Op) (r : Except C15.Err (Option PDesc)) : String :=
+  match r with
+  | .ok _ => "ok"
+  | .error e => if isReconcile op then "failed" else e.name
+
+/-- the legal edges, written from the property text (judge side) -/
+def legalEdge (a b : Nat) : Bool := (a, b) == (1, 2) || (a, b) == (1, 3) || (a, b) == (2, 3) || (a, b) == (3, 2)
+
+/-- judge one recorded step `old --op--> new` -/
+def judgeStep (old new : PDesc) (op : Op) : List String := Id.run do
+  let mut bad : List String := []
+  for p in old.parts do
+    match new.parts.find? (·.id == p.id) with
+    | some q =>
+      if p.state != q.state then
+        if !legalEdge p.state q.state then bad := "illegal-edge" :: bad
+        if p.locked then bad := "changed-while-locked" :: bad
+        match op with
+        | .reconcileOwned c now =>
+          let cnt := (old.owners.filter fun o => o.partition == c.pid && o.updatedTs < now - c.waitDur).length
+          if !(p.id == c.pid && p.state == 1 && q.state == 2 && cnt ≥ c.waitCount) then bad := "promotion-guard" :: bad
+        | .change pid to _ => if !(p.id == pid && q.state == to) then bad := "changed-other-than-requested" :: bad
+        | _ => bad := "state-changed-by-non-state-operation" :: bad
+    | none =>
+      match op with
+      | .reconcileOthers c now =>
+        let owners := (old.owners.filter (·.partition == p.id)).length
+        if !(p.id != c.pid && p.state == 3 && p.stateTs < now - c.deleteAfter && owners == 0 && c.deleteAfter > 0) then
+          bad := "deletion-guard" :: bad
+      | _ => bad := "deleted-by-non-reconcile" :: bad
+  for q in new.parts do
+    if (old.parts.find? (·.id == q.id)).isNone then
+      match op with
+      | .create c _ _ => if !(q.id == c.pid && q.state == 1) then bad := "created-not-pending" :: bad
+      | _ => bad := "created-by-non-create" :: bad
+  return bad
+
+def handleHist (f : List String) : String × String × String :=
+  match f with
+  | [init, lcs, ops, obs] =>
+    match parsePDesc init, (lcs.splitOn ";").mapM parseCfg with
+    | some d0, some cfgs =>
+      match (ops.splitOn ";").mapM (parseOp cfgs), (obs.splitOn "#").mapM (fun o => match o.splitOn "@" with
+          | [r, d] => (parsePDesc d).map fun pd => (r, d, pd) | _ => none) with
+      | some opl, some obl =>
+        if opl.length != obl.length then ("bad-lengths", "-", "-") else
+        -- model replay
+        let (_, mOut) := opl.foldl (fun (acc : PDesc × List String) op =>
+          let r := step acc.1 op
+          let d' := C15.apply acc.1 op
+          (d', acc.2 ++ [resName op r ++ "@" ++ showPDescOpt true d'])) (d0, [])
+        let mStr := "#".intercalate mOut
+        let diff := if mStr == obs then "-" else
+          let firstBad := ((mOut.zip (obs.splitOn "#")).zipIdx.find? fun ((a, b), _) => a != b).map fun ((a, _), i) => s!"step{i}:{a}"
+          "model=" ++ firstBad.getD "?"
+        -- judge on the implementation's recorded versions
+        let vers := d0 :: obl.map (·.2.2)
+        let steps := (vers.zip (vers.drop 1)).zip opl
+        let judge := steps.flatMap fun ((a, b), op) => judgeStep a b op
+        let changed := (steps.filter fun ((a, b), _) => a != b).length
+        let promo := steps.any fun ((a, b), op) => match op with | .reconcileOwned .. => a != b | _ => false
+        let del := steps.any fun ((a, b), _) => a.parts.length > b.parts.length
+        let lockedErr := obl.any (·.1 == "locked") || obl.any (·.1 == "failed")
+        let notAllowed := obl.any (·.1 == "stateChangeNotAllowed")
+        let tags := s!"hist ops={bucket opl.length} lcs={cfgs.length} changed={bucket changed} promo={promo} del={del} failed={lockedErr} notAllowed={notAllowed}"
+        (diff, joinReasons judge, tags)
+      | _, _ => ("bad-ops", "-", "-")
+    | _, _ => ("bad-input", "-", "-")
+  | _ => ("bad-fields", "-", "-")
+
+/-! ### replication sets -/
+
+def nowRepr : Int := 2000000000     -- any instant between the two heartbeat classes used by the generator
+def timeoutRepr : Int := 3600
+
+def parseBits (s : String) : List Bool := s.toList.map (· == '1')
+
+def insertStr (x : String) : List String → List String
+  | [] => [x]
+  | y :: ys => if x ≤ y then x :: y :: ys else y :: insertStr x ys
+def sortStr (l : List String) : List String := l.foldr insertStr []
+
+def showSet (ids : List String) (mu : Nat) : String := "+".intercalate ids ++ ":" ++ toString mu ++ ":0:1"
+
+/-- judge side: healthy registered owners of a partition (owner ids as instance ids) -/
+def healthyOwners (d : PDesc) (insts : Desc) (hs : List Bool) (pid : Int) (strip : Bool) : List Inst :=
+  (d.owners.filter (·.partition == pid)).filterMap fun o =>
+    let iid := if strip then stripSuffix o.id else o.id
+    match insts.find? (·.id == iid) with
+    | some i => if hs.getD i.state.toNat false && i.ts > nowRepr then some i else none
+    | none => none
+
+def handleRepl (f : List String) : String × String × String :=
+  match f with
+  | [ds, is, bits, obs] =>
+    match parsePDesc ds, parseDesc is with
+    | some d, some insts =>
+      let hs := parseBits bits
+      let m := match replSets d insts hs timeoutRepr nowRepr with
+        | .ok sets => "ok:" ++ ";".intercalate (sortStr (sets.map fun (ids, mu) => showSet (sortStr ids) mu))
+        | .error e => "err:" ++ e.name
+      let diff := if m == obs then "-" else "model=" ++ m
+      -- judge: the (anonymous) sets are exactly the healthy registered owners of each partition, none empty
+      let expected := d.parts.map fun p => sortStr ((healthyOwners d insts hs p.id false).map (·.id))
+      let judge :=
+        if obs.startsWith "ok:" then
+          let got := ((obs.drop 3).toString.splitOn ";").map fun s => ((s.splitOn ":").headD "")
+          (if sortStr got == sortStr (expected.map ("+".intercalate ·)) then [] else ["sets-not-healthy-owners"]) ++
+          (if expected.any (·.isEmpty) || d.parts.isEmpty then ["ok-without-healthy-owner"] else [])
+        else if obs == "err:tooManyUnhealthy" then (if expected.any (·.isEmpty) then [] else ["error-although-all-partitions-have-healthy-owner"])
+        else if obs == "err:emptyRing" then (if d.parts.isEmpty then [] else ["empty-ring-error-with-partitions"])
+        else ["unexpected-error"]
+      let tags := s!"repl res={if obs.startsWith "ok" then "ok" else obs} parts={d.parts.length} owners={bucket d.owners.length} insts={bucket insts.length}"
+      (diff, joinReasons judge, tags)
+    | _, _ => ("bad-input", "-", "-")
+  | _ => ("bad-fields", "-", "-")
+
+def handleMrepl (f : List String) : String × String × String :=
+  match f with
+  | [ds, is, cfg, obs] =>
+    match parsePDesc ds, parseDesc is, cfg.splitOn "," with
+    | some d, some insts, [bits, pidS] =>
+      match pidS.toInt? with
+      | none => ("bad-input", "-", "-")
+      | some pid =>
+      let hs := parseBits bits
+      let m := match multiReplSet d insts hs timeoutRepr nowRepr pid with
+        | .ok (ids, mu) => "ok:" ++ showSet ids mu
+        | .error e => "err:" ++ e.name
+      let diff := if m == obs then "-" else "model=" ++ m
+      let ho := healthyOwners d insts hs pid true
+      let registered := (d.owners.filter (·.partition == pid)).length
+      let judge :=
+        if obs.startsWith "ok:" then
+          let got := (((obs.drop 3).toString.splitOn ":").headD "").splitOn "+"
+          let gotI := got.filterMap fun id => ho.find? (·.id == id)
+          let zones := (ho.map (·.zone)).eraseDups
+          (if gotI.length == got.length then [] else ["member-not-healthy-owner"]) ++
+          (if sortStr (gotI.map (·.zone)) == sortStr zones then [] else ["not-one-per-zone"]) ++
+          (if gotI.all fun g => !g.ro || (ho.filter fun h => h.zone == g.zone && !h.ro).isEmpty then [] else ["read-only-preferred"]) ++
+          (if gotI.all fun g => (ho.filter fun h => h.zone == g.zone && h.ro == g.ro).all fun h =>
+              !idxLt (indexFromSuffix g.id) (indexFromSuffix h.id) then [] else ["not-highest-index"])
+        else if obs == "err:tooManyUnhealthy" then (if ho.isEmpty && registered > 0 then [] else ["error-although-healthy-owner"])
+        else if obs == "err:emptyRing" then (if registered == 0 then [] else ["empty-ring-error-with-owners"])
+        else ["unexpected-error"]
+      let tags := s!"mrepl res={if obs.startsWith "ok" then "ok" else obs} owners={bucket registered} healthy={bucket ho.length} zones={((ho.map (·.zone)).eraseDups).length}"
+      (diff, joinReasons judge, tags)
+    | _, _, _ => ("bad-input", "-", "-")
+  | _ => ("bad-fields", "-", "-")
+
+def handle (cmd : String) (f : List String) : String × String × String :=
+  if cmd == "C15.route" then handleRoute f
+  else if cmd == "C15.hist" then handleHist f
+  else if cmd == "C15.repl" then handleRepl f
+  else if cmd == "C15.mrepl" then handleMrepl f
+  else ("unknown-cmd", "-", "-")
 
 end OracleC15
